@@ -243,7 +243,11 @@ func (cs *clientState) isBlocked() bool {
 		if locked == CS_CAPTURED {
 			blocked = true
 		}
-		atomic.SwapInt32(&cs.blocked, locked)
+		if locked != CS_CHECKING {
+			// (when another goroutine is checking, the value to put back is in its hands:
+			// writing CS_CHECKING back would leave the state stuck in it for good)
+			atomic.SwapInt32(&cs.blocked, locked)
+		}
 
 		if locked == CS_UNCAPTURED || locked == CS_CAPTURED {
 			return blocked
